@@ -754,6 +754,81 @@ def environment_tasks(task, tier, seed):
     return rs
 
 
+def async_loop_context_table(task, tier, seed):
+    """AsyncLoopContext turns some members of LoopContext into coroutines (async properties / methods).  A member it INHERITS
+    unchanged that reads one of them synchronously creates a coroutine and drops it ('never awaited' during an async render)."""
+    import jinja2.runtime as R
+    fails = []
+    acls, base = R.AsyncLoopContext, R.LoopContext
+    async_names = set()
+    for name, raw in acls.__dict__.items():
+        f = raw.fget if isinstance(raw, property) else raw
+        if inspect.iscoroutinefunction(f) or inspect.isasyncgenfunction(f):
+            async_names.add(name)
+    if not async_names:
+        fails.append("AsyncLoopContext defines no async member (vacuous)")
+    for name, raw in base.__dict__.items():
+        if name in acls.__dict__:
+            continue  # overridden
+        f = raw.fget if isinstance(raw, property) else (raw.__func__ if isinstance(raw, (staticmethod, classmethod)) else raw)
+        if not inspect.isfunction(f):
+            continue
+        node, _ = extract.function_ast(f)
+        reads = sorted({n.attr for n in ast.walk(node) if isinstance(n, ast.Attribute) and isinstance(n.value, ast.Name) and n.value.id == "self"
+                        and n.attr in async_names and isinstance(n.ctx, ast.Load)})
+        # calls of async methods through self are reads as well (covered by the attribute test above)
+        if reads:
+            fails.append(f"[inherited:{name}] AsyncLoopContext inherits LoopContext.{name}, which reads self.{', self.'.join(reads)} synchronously: in async mode that is "
+                         "a coroutine, created and never awaited")
+    return [Res("C36.runtime.AsyncLoopContext.inherited_members_do_not_read_async_members", "refuted" if fails else "discharged", "table+ast", 0,
+                "; ".join(fails[:4])[:900], "table", witness={"failures": fails[:6]} if fails else None)]
+
+
+def native_loop_object(w=None):
+    """async renders that print / measure the loop object: no 'never awaited' warning, no exception"""
+    import asyncio
+    import gc
+    import warnings
+    from jinja2 import Environment
+    problems = []
+    env = Environment(enable_async=True)
+
+    async def agen():
+        for i in (1, 2):
+            yield i
+
+    for src in ("{% for x in xs %}{{ loop }}{% endfor %}", "{% for x in xs %}{{ loop|string }}{% endfor %}", "{% for x in xs %}{{ '%s'|format(loop) }}{% endfor %}",
+                "{% for x in xs %}{{ loop|length }}{% endfor %}", "{% for x in xs %}{{ loop.length }}/{{ loop.index }}{{ loop.revindex }}{{ loop.last }}{% endfor %}",
+                "{% for x in xs recursive %}{{ loop }}{% endfor %}"):
+        for data_name, xs in (("list", [1, 2]), ("async generator", None)):
+            with warnings.catch_warnings(record=True) as ws:
+                warnings.simplefilter("always")
+                try:
+                    out = asyncio.run(env.from_string(src).render_async(xs=xs if xs is not None else agen()))
+                except TypeError as ex:
+                    out = f"TypeError: {ex}"
+                except Exception as ex:
+                    out = f"{type(ex).__name__}: {ex}"
+                gc.collect()
+            never = [str(x.message) for x in ws if "never awaited" in str(x.message)]
+            if never or "coroutine object" in out:
+                problems.append(f"{src!r} over a {data_name}: {never[:1]}; rendered {out[:80]!r}")
+    return (bool(problems), "; ".join(problems[:3]) or "printing / measuring the async loop object creates no un-awaited coroutine")
+
+
+def loop_object_standin(task, tier, seed):
+    t0 = time.time()
+    task.bound_text = ("6 templates that print, format or measure `loop` ({{ loop }}, |string, |format, |length, awaited properties, recursive) x {list, async "
+                       "generator} rendered with render_async; oracle: no 'coroutine ... was never awaited' warning and no coroutine text in the output")
+    v, d = native_loop_object()
+    task.stats = {"seconds": round(time.time() - t0, 2)}
+    return [Res("C36.native.loop_object", "refuted" if v else "bounded-ok", "native", time.time() - t0, d[:700], "bounded", witness={"family": "loop object"} if v else None)]
+
+
+def inherited_key(res):
+    return ",".join(sorted(set(re.findall(r"\[inherited:(\w+)\]", res.detail or "")))) or "?"
+
+
 # ------------------------------------------------------------------------------------------ tasks
 
 def _for_fields(recursive):
@@ -785,6 +860,8 @@ TASKS = (
     + [_mk(EmitTask("C36", f"C36.emit.await.visit_{nm}", f"jinja2.compiler:CodeGenerator.visit_{nm}", getattr(N, nm), awaited_pred, mode="expr",
                     buffers=(None,), replay_fn=native_awaited, min_paths=8, configure=cfg_callable_model)) for nm in ("Filter", "Test")]
     + [_mk(FnTask("C36", "C36.native.awaited", awaited_standin, "bounded", native_awaited), awaited_key)]
+    + [_mk(FnTask("C36", "C36.runtime.AsyncLoopContext", async_loop_context_table, "table", native_loop_object), inherited_key),
+       _mk(FnTask("C36", "C36.native.loop_object", loop_object_standin, "bounded", native_loop_object), lambda r: "loop-object")]
     + [FnTask("C36", "C36.environment", environment_tasks, "path", replay_close)]
     + [_mk(FnTask("C36", "C36.native", standin, "bounded", standin_replay), standin_key)]
 )
